@@ -465,10 +465,10 @@ def both(tag, cases, bins):
     return lines, impl, model, meta
 
 
-def shrink_case(c, still):
-    """drop ops, then unused intents/heads, while `still(case)` holds"""
+def shrink_case(c, still, rounds=60):
+    """drop ops while `still(case)` holds"""
     cur = dict(c)
-    cur["ops"] = vf.shrink_list(cur["ops"], lambda ops: still(dict(cur, ops=ops)), max_rounds=60)
+    cur["ops"] = vf.shrink_list(cur["ops"], lambda ops: still(dict(cur, ops=ops)), max_rounds=rounds)
     return cur
 
 
@@ -574,12 +574,14 @@ def run(tier, seed, replay=None):
         l = render_case(small)
         _, mm = run_impl("c08shrink", [l], bins)
         r.violation("oracle:" + sg, f"implementation oracle failed: {mm[0]['oracle']}", {"case": l, "oracle": mm[0]["oracle"]})
-    for i in bad[:3]:
+    for n, i in enumerate(bad[:3]):
         c = cases[i]
         def differs(cand):
             _, a, b, _ = both("c08shrink", [cand], bins)
             return a != b
-        small = shrink_case(c, differs) if not replay else c
+        # each step costs a coqc run: shrink only the first disagreement, and only when no oracle violation already
+        # gives a concrete failing input
+        small = shrink_case(c, differs, 12) if not (replay or n or r.violations) else c
         l, a, b, mm = both("c08shrink", [small], bins)
         r.is_broken("correspondence", f"model and implementation differ on: {l[0]}\n impl : {a[0]}\n model: {b[0]}")
         for sg in sigs_of(mm[0]["oracle"]):
